@@ -4,6 +4,7 @@ import TongoModel.Tlb.Dec
 import TongoModel.Tlb.TyText
 import TongoModel.Tlb.Tags
 import TongoModel.Tlb.CanonCell
+import TongoModel.Tlb.Dns
 /-! Line handlers of the TL-B codec model (properties C03, C04):
   tlb.enc <GoType> <ty> <env> <val>     → ok <canonical table> | err | panic
   tlb.dec <GoType> <ty> <env> <table>   → ok <val> | err | panic
@@ -49,6 +50,31 @@ def opsTlb : List (String × Handler) := [
       match TyText.parseTy ty, TyText.parseEnv env, SExp.cellOfString tbl with
       | some t, some e, some c => if canonicalCell e tlbFuel t c then "ok canonical" else "ok noncanonical"
       | _, _, _ => "bad-op"
+    | _ => "bad-op"),
+  -- tlb.DNSRecord / tlb.DNSText: the hand-written decoders of tlb/dns.go
+  ("tlb.dns", fun
+    | [tbl] => match SExp.cellOfString tbl with
+      | some c => outcomeStr SExp.toString (Dns.decDnsRecord (Slice.ofCell c))
+      | none => "bad-op"
+    | _ => "bad-op"),
+  ("tlb.dnstext", fun
+    | [tbl] => match SExp.cellOfString tbl with
+      | some c =>
+        let s := Slice.ofCell c
+        if s.isLibrary then "err"
+        else outcomeStr (fun r => "x" ++ Hex.encode r.1) (Dns.decDnsText s)
+      | none => "bad-op"
+    | _ => "bad-op"),
+  -- the schema side: the cell block.tlb prescribes for a Text with the given chunks (`-` = the empty chunk)
+  ("tlb.dnsspec", fun chunks =>
+    match chunks.mapM hexArg with
+    | some cs => let r := Dns.specDnsText cs; "ok " ++ SExp.cellToString (Cell.mk 0 0 r.1 r.2)
+    | none => "bad-op"),
+  -- VmStack.Put applied to the listed values in order, starting from the empty stack
+  ("tlb.stackput", fun
+    | [val] => match SExp.parse val with
+      | some v => "ok " ++ SExp.toString ((Val.toList v).foldl (fun s x => Val.cons x s) Val.nil)
+      | none => "bad-op"
     | _ => "bad-op"),
   ("tlb.parsetag", fun
     | [h] => match hexArg h with
